@@ -25,7 +25,8 @@
  *   c13-overlap        in-section flag: two threads inside sections of one Mutex (lock / trylock / with)
  *   c13-counter        plain counter incremented only inside sections lost an update
  *   c13-trylock        trylock did not report whether it acquired
- *   c13-join-early     join returned before the thread function (and the teardown) had finished
+ *   c13-join-early     join returned before the thread function (and the teardown) had finished (also: join(current(Thread)) returned
+ *                      normally instead of raising — the defect repaired by 484991f)
  *   c13-join-stale     value written by the thread is not what the joiner reads right after join
  *   c13-digest         a workload computed another result than when it runs alone
  *   c13-tls-value      a thread-local value read back is not the object that was stored by this thread
@@ -37,7 +38,6 @@
  *   kf-c13-mark-foreign-tls        the mark phase of a thread that holds `new(Thread, f)` of a running thread walks that thread's
  *                                  thread-local table while it is being rewritten (forked child: exception out of `new`, or memory error)
  *   kf-c13-join-result-finalised   after join(U) the object U allocated and handed to the joiner has been finalised by U's teardown
- *   kf-c13-join-edeadlk            join(current(Thread)) returned while the thread function is still running (EDEADLK ignored)
  * A run that makes no progress for 15 s (deadlock) or exceeds 45 s prints where every thread is stuck and exits with
  * status 142; a crash of any thread (e.g. a destructor running without the thread's exception record) kills the process:
  * both are reported by the runner as a crash of the case.
@@ -442,7 +442,7 @@ static const char* errname_doc(int fn, int err) {   /* the documented translatio
     case FN_LOCK: return err == EINVAL ? "ValueError" : err == EDEADLK ? "ResourceError" : "ok";
     case FN_TRYLOCK: return err == EBUSY ? "0" : err == EINVAL ? "ValueError" : "1";
     case FN_UNLOCK: return err == EINVAL ? "ValueError" : err == EPERM ? "ResourceError" : "ok";
-    case FN_JOIN: return err == EINVAL ? "ValueError" : err == ESRCH ? "ValueError" : "ok";
+    case FN_JOIN: return err == EINVAL ? "ValueError" : err == ESRCH ? "ValueError" : err == EDEADLK ? "ResourceError" : "ok";
   }
   return "?";
 }
@@ -746,10 +746,13 @@ static void exec_sync_sched(Evt* e) {
       if (u <= 0 || u > nworkers) { set_out(e, "nothread"); break; }
       if (wrapper_gone[u]) { set_out(e, "ub"); break; }                 /* join on a finalised Thread object: not executed */
       if (u == me) {
-        /* join(current(Thread)): pthread_join(self) = EDEADLK, which Thread_Join ignores */
-        prim_begin(); join(thread_obj[u]); prim_end(FN_JOIN, NULL, e->line);
-        XX("sig=kf-c13-join-edeadlk line=%d what=join(current(Thread)) in thread %d returned while the thread function is still running", e->line, me);
-        set_out(e, "early"); break; }
+        /* join(current(Thread)): pthread_join(self) = EDEADLK, for which Thread_Join raises ResourceError */
+        var exc = NULL; prim_begin(); V_TRY(exc, join(thread_obj[u])); prim_end(FN_JOIN, NULL, e->line);
+        if (!exc) {
+          XX("sig=c13-join-early line=%d what=join(current(Thread)) in thread %d returned while the thread function is still running", e->line, me);
+          set_out(e, "early"); break; }
+        if (strcmp(v_exc_name(exc), "ResourceError") != 0) XX("sig=c13-errmap line=%d what=join(current(Thread)) raised %s, documented ResourceError", e->line, v_exc_name(exc));
+        set_out(e, "%s", v_exc_name(exc)); break; }
       int ph = atomic_load(&phase[u]);
       if (ph == PH_UNBORN) { prim_begin(); join(thread_obj[u]); tl_cello_sync = 0;
         if (tl_prim_calls != 0) XX("sig=c13-wrapper line=%d what=join of a Thread that was never called reached pthread_join", e->line);
@@ -823,7 +826,13 @@ static void exec_sync_free(Evt* e) {
     case OP_JOIN: {
       int u = (int)e->a;
       if (u <= 0 || u > nworkers) break;
-      if (u == me || wrapper_gone[u]) break;
+      if (wrapper_gone[u]) break;
+      if (u == me) {
+        /* join(current(Thread)) never blocks: pthread_join(self) = EDEADLK -> ResourceError */
+        var exc = NULL; prim_begin(); V_TRY(exc, join(thread_obj[u])); prim_end(FN_JOIN, NULL, e->line);
+        if (!exc) XX("sig=c13-join-early line=%d what=join(current(Thread)) in thread %d returned while the thread function is still running", e->line, me);
+        else if (strcmp(v_exc_name(exc), "ResourceError") != 0) XX("sig=c13-errmap line=%d what=join(current(Thread)) raised %s, documented ResourceError", e->line, v_exc_name(exc));
+        break; }
       __real_pthread_mutex_lock(&bm); int can = atomic_load(&phase[u]) != PH_UNBORN && !was_joined[u]; if (can) was_joined[u] = 1; __real_pthread_mutex_unlock(&bm);
       if (!can) break;
       prim_begin(); join(thread_obj[u]); prim_end(FN_JOIN, NULL, e->line);
